@@ -366,4 +366,6 @@ WITNESSES = [
      "new": "\t    (expire_interval != 0 &&\n\t     rtr_check_interval_range(expire_interval, RTR_EXPIRATION_MIN, RTR_EXPIRATION_MAX) !=\n\t\t     RTR_INSIDE_INTERVAL_RANGE) ||"},
     {"id": "C17.w-tcp-recv-always-blocking", "rule": "C17.R5", "file": "rtrlib/transport/tcp/tcp_transport.c",
      "old": "\tif (timeout == 0) {\n\t\trtval = recv(tcp_socket->socket, pdu, len, MSG_DONTWAIT);", "new": "\tif (timeout < 0) {\n\t\trtval = recv(tcp_socket->socket, pdu, len, MSG_DONTWAIT);"},
+    {"id": "C17.w-manager-crosses-expire-and-retry", "rule": "C17.R7", "file": "rtrlib/rtr_mgr.c",
+     "old": "refresh_interval, expire_interval, retry_interval,", "new": "refresh_interval, retry_interval, expire_interval,"},
 ]
